@@ -10,7 +10,7 @@ from . import c09
 
 ID = 'C20'
 LEVEL = 'model_checking'
-RULE = ('programs = every body tree with <= N operators over the 8 leaves in the context of C05 (callee with a later '
+RULE = ('(every other solution of a Python predicate is built with the Atom constructor instead of the engine atom table, and the goal r(X, b) joins such an atom with one from compiled code) programs = every body tree with <= N operators over the 8 leaves in the context of C05 (callee with a later '
         'clause, caller with alternatives, a dynamic fact) and the meta-call programs of C09 over o/1, m/1, r/2; for '
         'each program EVERY non-empty subset of the fact predicates it uses (z/0 o/1 m/1 k/1, r/2) is re-implemented as a '
         'registered Python generator function x registration style {inferred, explicit, explicit with a generic *args function, variadic arity given as -1 and as -3; inferred also for a bound method, for a method bound to the engine object itself, for a functools.wraps-decorated function and for a function that returns a cursor object (an iterator with close(), also kept in a registry) instead of a generator} x yielded '
@@ -75,9 +75,13 @@ def make_py(yp, key, style, yv, events):
     def body(args):
         tick()
         events['args'].append((name, len(args)))
-        for s in sols:
+        for si, s in enumerate(sols):
             vm = {}
             terms = [impl.to_engine(yp, t, vm) for t in s]
+            if si % 2:
+                # every other solution is built the way module-level application code builds terms: with the Atom
+                # constructor, not through the engine's atom table (an atom is its name, whoever made the object)
+                terms = [impl.engine.Atom(t.name()) if isinstance(t, impl.engine.Atom) else t for t in terms]
             for _ in unify_all(list(zip(args, terms))):
                 yield yv
                 tick()
@@ -432,7 +436,7 @@ def plan(tier):
 def meta_programs():
     idx = 0
     X, Y = V('X'), V('Y')
-    goals = [F('o', X), F('m', X), F('r', X, Y), F('r', C(2), Y), A('z'), A('y0')]
+    goals = [F('o', X), F('m', X), F('r', X, Y), F('r', C(2), Y), A('z'), A('y0'), F('r', X, A('b'))]
     for goal in goals:
         for tag, g2, mk, usesL in c09.builtin_goals(goal, 0):
             if tag.startswith('findall-T') and tag not in ('findall-T0', 'findall-T1'):
